@@ -554,3 +554,129 @@ def clientCall (chain : List String) (table : List Route) (cfg : CliCfg) (c : Ca
     (o.ops, clientRet c o)
 
 end CV.C11
+
+/-! ## the add endpoint (`addHandler`, `AddParamsFromQuery`, `adderutils.AddMultipartHTTPHandler`)
+
+One small file in a multipart body (or no / a broken body); non-sharded adds only.  What the adder
+does with the blocks is C13's subject: here the block puts are one collapsed entry and the root CID is
+described by its version, codec and hash function. -/
+namespace CV.C11
+open CV
+
+inductive Multipart where
+  | ok | none | junk
+  deriving DecidableEq, Repr
+
+structure AddReq where
+  creds : Bool
+  auth : Auth
+  mp : Multipart
+  query : List (String × QV)
+  md : List (Nat × Nat)
+  rpc : RpcMode
+  deriving Repr
+
+structure RootDesc where
+  version : Nat
+  codec : String     -- "pb" | "raw"
+  hash : String
+  deriving DecidableEq, Repr
+
+structure AddResp where
+  status : Nat                 -- 0 = no response (the handler panicked)
+  body : BodyShape
+  trailer : Bool               -- X-Stream-Error set
+  root : Option RootDesc
+  ops : List Op
+  deriving DecidableEq, Repr
+
+/-- `parseBoolParam`: `none` = error -/
+def boolParam (v : QV) (dflt : Bool) : Option Bool :=
+  match v with
+  | .empty => some dflt
+  | .valid (.bool b) => some b
+  | _ => none
+
+/-- a word option checked at parse time (layout, format): `none` = error -/
+def wordParam (v : QV) : Option String :=
+  match v with
+  | .empty => some ""
+  | .valid (.str s) => some s
+  | _ => none
+
+/-- a word option NOT checked at parse time (chunker, hash): `none` = the adder rejects it later -/
+def lateWord (v : QV) (dflt : String) : Option String :=
+  match v with
+  | .empty => some dflt
+  | .valid (.str s) => some s
+  | _ => none
+
+structure AddParams where
+  opts : Opts
+  layout : String
+  format : String
+  stream : Bool
+  wrap : Bool
+  shard : Bool
+  nocopy : Bool
+  cidv : Int
+  rawLeaves : Bool
+  deriving Repr
+
+/-- `AddParamsFromQuery`; `none` = 400 -/
+def addParams (q : List (String × QV)) (md : List (Nat × Nat)) : Option AddParams :=
+  match fromQuery q md, wordParam (getq q "layout"), wordParam (getq q "format"),
+        boolParam (getq q "local") false, boolParam (getq q "recursive") false, boolParam (getq q "hidden") false,
+        boolParam (getq q "wrap-with-directory") false, boolParam (getq q "shard") false,
+        boolParam (getq q "progress") false, intParam (getq q "cid-version") 0 with
+  | some o, some layout, some format, some _, some _, some _, some wrap, some shard, some _, some cidv =>
+    (match boolParam (getq q "raw-leaves") (decide (cidv > 0)), boolParam (getq q "stream-channels") true,
+           boolParam (getq q "nocopy") false with
+     | some raw, some stream, some nocopy =>
+       some { opts := { o with update := none }, layout := layout, format := format, stream := stream, wrap := wrap,
+              shard := shard, nocopy := nocopy, cidv := cidv, rawLeaves := raw }
+     | _, _, _ => none)
+  | _, _, _, _, _, _, _, _, _, _ => none
+
+/-- the adder fails before asking anything of the cluster -/
+def lateFailure (r : AddReq) (p : AddParams) : Bool :=
+  r.mp == .junk || (lateWord (getq r.query "chunker") "size-262144").isNone ||
+  (lateWord (getq r.query "hash") "sha2-256").isNone || p.format == "car" || p.nocopy ||
+  !(p.cidv == 0 || p.cidv == 1)
+
+def hashOf (r : AddReq) : String := (lateWord (getq r.query "hash") "sha2-256").getD "sha2-256"
+
+def singleChunk (r : AddReq) : Bool := getq r.query "chunker" != .valid (.str "size-10")
+
+/-- `single.New` pins recursively whatever the mode -/
+def addOpts (p : AddParams) : Opts := { p.opts with mode := .recursive }
+
+def errorAnswer (p : AddParams) (ops : List Op) : AddResp :=
+  if p.stream then { status := 200, body := .docs 0, trailer := true, root := none, ops := ops }
+  else { status := 500, body := .docs 1, trailer := false, root := none, ops := ops }
+
+def addHandle (r : AddReq) : AddResp :=
+  if r.creds && r.auth != .right then { status := 401, body := .docs 1, trailer := false, root := none, ops := [] }
+  else if r.mp == .none then { status := 400, body := .docs 1, trailer := false, root := none, ops := [] }
+  else match addParams r.query r.md with
+    | none => { status := 400, body := .docs 1, trailer := false, root := none, ops := [] }
+    | some p =>
+      -- (the trickle builder hits the CIDv0-with-another-hash error before anything is allocated, and returns it)
+      if lateFailure r p || (p.cidv == 0 && hashOf r != "sha2-256" && p.layout == "trickle") then errorAnswer p []
+      else
+        let alloc : Op := ⟨"Cluster.BlockAllocate", .path "" (addOpts p)⟩
+        if r.rpc != .ok then errorAnswer p [alloc]
+        else if p.cidv == 0 && hashOf r != "sha2-256" then
+          -- go-merkledag panics building a CIDv0 with another hash function
+          { status := 0, body := .docs 0, trailer := false, root := none, ops := [alloc] }
+        else
+          let raw := !p.wrap && p.rawLeaves && singleChunk r
+          -- a raw leaf is a CIDv1 whatever cid-version says
+          let root : RootDesc :=
+            { version := if raw then 1 else p.cidv.toNat, hash := hashOf r, codec := if raw then "raw" else "pb" }
+          -- `adder.Pin` drops the allocations for a replicate-everywhere pin
+          let pin : Pin := { pinWithOpts 999 (addOpts p) with allocs := if p.opts.rmin < 0 then [] else [999] }
+          { status := 200, body := .docs 1, trailer := false, root := some root,
+            ops := [alloc, ⟨"IPFSConnector.BlockPut", .blk⟩, ⟨"Cluster.Pin", pinArg pin⟩] }
+
+end CV.C11
